@@ -170,7 +170,9 @@ def make_data(key):
     elif key == "A34":
         x = np.arange(12.0).reshape(3, 4)
         x[1, 2] = nan
-        d = Data(x=x, y=(np.arange(12.0).reshape(3, 4) % 5), z=(np.arange(12.0).reshape(3, 4) // 3), label="A34")
+        from glue.core.coordinates import AffineCoordinates
+        d = Data(x=x, y=(np.arange(12.0).reshape(3, 4) % 5), z=(np.arange(12.0).reshape(3, 4) // 3), label="A34",
+                 coords=AffineCoordinates(np.array([[2.0, 0, 1], [0, 1.0, 0], [0, 0, 1.0]])))
     elif key == "A232":
         d = Data(x=np.arange(12.0).reshape(2, 3, 2), y=(np.arange(12.0).reshape(2, 3, 2) % 4),
                  z=(np.arange(12.0).reshape(2, 3, 2) % 3), label="A232")
@@ -252,6 +254,8 @@ def make_leaf(spec, datas):
         if tt and var >= 10:
             return S.RangeSubsetState(0.5, 1.5, att(d, "b%d" % (var % 4)))
         a = [("x", 1.5, 3.5), ("s", 6.5, 9.0), ("pix0", 0.5, 2.5), ("z", 0.5, 1.5), ("y", -1.0, 2.5)][var % 5]
+        if var == 5:
+            a = ("wor1", 1.5, 5.5)    # world coordinate (datasets with coords only)
         return S.RangeSubsetState(a[1], a[2], att(d, a[0]))
     if kind == "multiRange":
         return S.MultiRangeSubsetState([(0.5, 1.5), (2.5, 4.0)] if var % 2 == 0 else [(5.0, 100.0)], att(d, "y"))
@@ -331,6 +335,8 @@ def leaf_specs_for(dkey, di):
         out += [["inequality", 5, di]]
     if nd >= 2:
         out += [["roiNd", 1, di]]
+    if dkey == "A34":
+        out += [["range", 5, di], ["range", 5, di]]
     if dkey in ("A6", "T16"):
         out += [["catRoi", 0, di], ["catRoi", 1, di], ["category", 0, di], ["category", 1, di]]
     if dkey == "A6":
@@ -771,7 +777,7 @@ class TruthTable(ProgFamily):
             yield tt_case(["mor", a, b_, c])
         # depth 3: every operator over sampled depth-2 operands (seeded)
         d2 = trees_upto(2, leaves)
-        n = 800 if tier == "quick" else 40000
+        n = 800 if tier == "quick" else 20000
         for _ in range(n):
             op = rng.choice(["and", "or", "xor", "inv", "mor"])
             a, b_ = rng.choice(d2), rng.choice(d2)
@@ -799,6 +805,11 @@ def random_program(rng, dkeys, nleaf, nops, tier):
     for di, dk in enumerate(dkeys):
         specs += leaf_specs_for(dk, di)
     specs = [s_ for s_ in specs if s_[0] != "base"]
+    if any(not view_hashable(v) for v in views):
+        # `data[world_cid, <integer array>]` returns a 0-d array on this tree (a view defect of the
+        # world-coordinate components, C04's domain): numpy then broadcasts where equal shapes are
+        # expected.  World-coordinate leaves are therefore only combined with basic views.
+        specs = [s_ for s_ in specs if not (s_[0] == "range" and s_[1] == 5)]
     leaves = [["base", 0, 0]] + [rng.choice(specs) for _ in range(nleaf)]
     prog, shape = [], []      # shape[v]: how variable v was made (to emit well-formed `child` ops)
 
@@ -861,7 +872,7 @@ class RandomPrograms(ProgFamily):
     budget_share = 2.0
 
     def cases(self, tier, rng):
-        n = 3000 if tier == "quick" else 60000
+        n = 3000 if tier == "quick" else 30000
         for i in range(n):
             dk = rng.choice([["A6"], ["A6", "B4"], ["A34"], ["A232"], ["A6"], ["A34", "B4"], ["T16"]])
             yield random_program(rng, dk, rng.randint(2, 6), rng.randint(4, 22 if tier == "quick" else 40), tier)
